@@ -2,6 +2,7 @@ SPECIFICATION Spec
 CONSTANTS Family = "unfold"
           MaxEdits = 2
           UnivKinds = {"noisy"}
+          GtFirst = FALSE
           WithGt = TRUE
 INVARIANT UnfoldIsDenote
 INVARIANT ErrorOnlyWhenDenoted
